@@ -10,7 +10,8 @@
 (*   n     name without sigil ("" = unnamed global/function; attribute     *)
 (*         groups and metadata nodes are named by their decimal ID)        *)
 (*   body  type: "struct" | "opaque" | "alias"; func: "decl" | "def" |     *)
-(*         "resolver"; md: "tuple" | "distinct" | "di"; otherwise ""       *)
+(*         "resolver"; md: "tuple" | "distinct" | "di"; attr: the function *)
+(*         attributes of the group, space separated; otherwise ""          *)
 (*   refs  references made by the entity outside function bodies           *)
 (*   locals (func def) parameters, blocks and instructions in layout order *)
 (*         [n, lk, refs], lk in "param" "block" "inst" "void"              *)
@@ -36,7 +37,8 @@ IFunc(n, to)     == Ent("ifunc", n, "", <<Ref("g.resolver", to)>>, <<>>)
 Decl(n, refs)    == Ent("func", n, "decl", refs, <<>>)
 Def(n, refs, ls) == Ent("func", n, "def", refs, ls)
 Resolver(n)      == Ent("func", n, "resolver", <<>>, <<>>)
-Attr(n)          == Ent("attr", n, "", <<>>, <<>>)
+Attr(n)          == Ent("attr", n, "nounwind", <<>>, <<>>)
+AttrB(n, body)   == Ent("attr", n, body, <<>>, <<>>)      \* body: the attributes of the group, e.g. "noinline cold"
 NamedMd(n, refs) == Ent("nmd", n, "", refs, <<>>)
 Md(n, refs)      == Ent("md", n, "tuple", refs, <<>>)
 MdDistinct(n, refs) == Ent("md", n, "distinct", refs, <<>>)
@@ -104,7 +106,7 @@ Patterns == <<
      Md("7", <<Ref("g.mdvalue", "g")>>), NamedMd("m", <<Ref("m.named", "0")>>), NamedMd("a", <<Ref("m.named", "7")>>),
      Global("g", <<Ref("m.attach", "7")>>), Decl("f", <<Ref("m.attach", "0")>>) >>,
   \* 7: attribute groups out of order, one defined twice, function attributes, comdat on a function, personality
-  << Attr("10"), Attr("2"), Attr("10"),
+  << AttrB("10", "nounwind cold"), Attr("2"), AttrB("10", "noinline nounwind"),
      Def("f", <<Ref("a.func", "10"), Ref("c.func", "c"), Ref("g.personality", "p")>>, << Loc("entry", "block", <<>>), Loc("", "void", <<Ref("g.callee", "p"), Ref("a.call", "2")>>) >>),
      Decl("p", <<Ref("a.func", "2")>>), Comdat("c") >>,
   \* 8: ifunc, resolver, unnamed globals between named ones, alias of an unnamed global
